@@ -78,6 +78,9 @@ pub struct Beh {
     /// number of clones to create up front (C18 routing)
     #[serde(default)]
     pub clones: usize,
+    /// order in which the clauses are listed when the mock is built (C18); empty = as given
+    #[serde(default)]
+    pub perm: Vec<usize>,
     /// per configured returns(v): expected deliveries (checked against clone/drop counters)
     #[serde(default)]
     pub vals: Vec<ValRep>,
@@ -128,6 +131,14 @@ pub fn call_top(u: &Unimock, node: &Node) -> (Obs, Vec<Event>) {
     match r {
         Ok((id, gen)) => (Obs::Ret { id, gen }, log),
         Err(p) => (payload_to_obs(p), log),
+    }
+}
+
+/// `Trait::method` as the library prints it for a method id of the universe
+pub fn path_of(m: &str) -> String {
+    match m {
+        "g8" | "g16" => "UG::g".to_string(),
+        m => format!("U::{m}"),
     }
 }
 
@@ -243,7 +254,7 @@ impl Replayer {
         }
         // 1. construction through the real builder API
         let built = catch_unwind(AssertUnwindSafe(|| {
-            let dc = build_clauses(&beh.leaves);
+            let dc = if beh.perm.is_empty() { build_clauses(&beh.leaves) } else { build_clauses_perm(&beh.leaves, &beh.perm) };
             if beh.strict {
                 Unimock::new(dc)
             } else {
@@ -262,7 +273,7 @@ impl Replayer {
                     self.diverge(beh, 0, "construction", true, json!(beh.new), json!({"panic": msg}));
                 } else if cls == "other" {
                     self.diverge(beh, 0, "construction wording", false, json!(beh.new), json!({"panic": msg}));
-                } else if !beh.new.m.is_empty() && !msg.contains(&format!("U::{}", beh.new.m)) && cls == "ModeConflict" {
+                } else if !beh.new.m.is_empty() && !msg.contains(&path_of(&beh.new.m)) && cls == "ModeConflict" {
                     self.diverge(beh, 0, "construction error names another method", true, json!(beh.new), json!({"panic": msg}));
                 }
                 return self.stats.divergences == before;
@@ -345,6 +356,68 @@ impl Replayer {
         ok
     }
 
+    /// C18: two independent mocks built from the same clauses, driven step by step in lock-step;
+    /// each must behave exactly as the model says a single mock does (distinct mocks share nothing).
+    pub fn replay_twin(&mut self, beh: &Beh) -> bool {
+        self.stats.behaviours += 1;
+        let before = self.stats.divergences;
+        let build = || {
+            catch_unwind(AssertUnwindSafe(|| {
+                let dc = if beh.perm.is_empty() { build_clauses(&beh.leaves) } else { build_clauses_perm(&beh.leaves, &beh.perm) };
+                if beh.strict {
+                    Unimock::new(dc)
+                } else {
+                    Unimock::new_partial(dc)
+                }
+            }))
+        };
+        let (a, b) = match (build(), build()) {
+            (Ok(a), Ok(b)) => (a, b),
+            _ => return true, // construction errors are covered by the single-mock replay
+        };
+        let mut mocks = [Some(a), Some(b)];
+        let mut msgs: [Vec<String>; 2] = [vec![], vec![]];
+        'steps: for (si, step) in beh.steps.iter().enumerate() {
+            match step.op.as_str() {
+                "call" => {
+                    let node = Node { m: step.m.clone(), a: step.a, sc: step.sc.clone(), up: step.up };
+                    for k in 0..2 {
+                        let (obs, log) = call_top(mocks[k].as_ref().unwrap(), &node);
+                        if let Obs::MockPanic { msg, .. } = &obs {
+                            msgs[k].push(msg.clone());
+                        }
+                        let exp = step.out.as_ref().unwrap();
+                        if let Err((scope, why)) = cmp_out(exp, &obs) {
+                            self.diverge(beh, si + 1, &format!("twin mock {k}: call outcome: {why}"), scope, json!(exp), json!(obs));
+                            if scope {
+                                break 'steps;
+                            }
+                        }
+                        if log != step.log {
+                            self.diverge(beh, si + 1, &format!("twin mock {k}: what user code observed"), true, json!(step.log), json!(log));
+                            break 'steps;
+                        }
+                    }
+                }
+                "finish" => {
+                    let v = step.v.as_ref().unwrap();
+                    for k in 0..2 {
+                        let r = finish(mocks[k].take().unwrap(), &step.via);
+                        let m = std::mem::take(&mut msgs[k]);
+                        self.check_verdict(beh, si + 1, v, &r, &m);
+                    }
+                }
+                _ => {}
+            }
+        }
+        for m in mocks.iter_mut() {
+            if let Some(orig) = m.take() {
+                let _ = catch_unwind(AssertUnwindSafe(move || drop(orig.no_verify_in_drop())));
+            }
+        }
+        self.stats.divergences == before
+    }
+
     fn check_verdict(&mut self, beh: &Beh, si: usize, v: &Verdict, r: &FinishObs, mock_msgs: &[String]) {
         match (v.k.as_str(), r) {
             ("silent", FinishObs::Silent) => self.stats.verdict_silent += 1,
@@ -375,8 +448,8 @@ impl Replayer {
                     let mut exp: Vec<VLine> = v
                         .lines
                         .iter()
-                        .map(|l| VLine::Pat { path: format!("U::{}", l.m), label: label(l.li, l.pi), exact: l.exact, want: l.want, got: l.got })
-                        .chain(v.never.iter().map(|m| VLine::Never { path: format!("U::{m}") }))
+                        .map(|l| VLine::Pat { path: path_of(&l.m), label: label(l.li, l.pi), exact: l.exact, want: l.want, got: l.got })
+                        .chain(v.never.iter().map(|m| VLine::Never { path: path_of(m) }))
                         .collect();
                     let mut got: Vec<VLine> = msg.split('\n').map(parse_vline).collect();
                     exp.sort();
@@ -439,6 +512,8 @@ pub struct Opts {
     pub clones: usize,
     pub seed: u64,
     pub tlc_log: Option<String>,
+    /// additionally replay every behaviour on two independent mocks in lock-step
+    pub twin: bool,
     /// replace the entry point of the final verification (round-robin over these) instead of the model's
     pub vias: Vec<String>,
 }
@@ -506,6 +581,9 @@ pub fn run_replay(input: &mut dyn BufRead, out_path: &str, opts: &Opts) -> i32 {
                     }
                     rp.replay(&b2);
                     routed += 1;
+                }
+                if opts.twin && beh.new.k == "ok" {
+                    rp.replay_twin(&beh);
                 }
             }
             Err(e) => {
